@@ -1,6 +1,7 @@
 (* C20 — deciding obligations. Statements only, closed by the lemmas proved in Async/*Proofs.v. *)
 From Coq Require Import ZArith List Bool.
 From VF Require Import Async.Collector Async.CollectorProofs.
+From VF Require Import Async.StreamTypes Generated.RetryTable Async.Stream Async.StreamProofs.
 Import ListNotations.
 
 (* ---- Collector.collect_async: for every concurrency, budget, next_job oracle and completion schedule ---- *)
@@ -39,7 +40,7 @@ Print Assumptions C20_collector_exactly_once.
 Theorem C20_collector_progress : forall conc budget orc sched,
   let c := run conc budget orc sched in
   let tr := trace c in
-  st c <> OutOfFuel
+  st c <> Collector.OutOfFuel
   /\ (st c = Waiting -> n_done tr < n_start tr /\ n_result tr = n_done tr /\ n_start tr = n_take tr)
   /\ (st c = Halted <-> n_take tr = n_result tr)
   /\ (st c = Halted -> n_result tr = n_done tr /\ n_done tr = n_start tr /\ n_start tr = n_take tr)
@@ -72,3 +73,96 @@ Example C20_collector_example_waiting :
 Proof. vm_compute. repeat split; repeat constructor. Qed.
 Example C20_collector_example_raised : st (run 2 None [[mkjob 1 1%Z; mkjob 2 1%Z]] [[(1, Err 4%Z); (0, Ok 5%Z)]]) = Raised 4%Z.
 Proof. vm_compute. reflexivity. Qed.
+
+(* ---- StreamManager: one execution coroutine along EVERY fault sequence (retry decisions = regenerated table) ---- *)
+
+(* the job is created at most once, whatever happens to the requests *)
+Theorem C20_job_created_at_most_once : forall fuel s fs,
+  screates (srv_of (run_client fuel s fs)) <= screates s + (if sjob s then 0 else 1).
+Proof. exact job_created_at_most_once. Qed.
+Print Assumptions C20_job_created_at_most_once.
+
+(* if submit returns, the job exists on the server and — unless it existed before — was created exactly once *)
+Theorem C20_result_is_jobs : forall fuel s fs,
+  out_of (run_client fuel s fs) = Returned ->
+  sjob (srv_of (run_client fuel s fs)) = true /\
+  (sjob s = false -> screates (srv_of (run_client fuel s fs)) = S (screates s)).
+Proof. exact result_is_jobs. Qed.
+Print Assumptions C20_result_is_jobs.
+
+(* the retry loop ends: three requests after the last fault at the latest (OutOfFuel is unreachable with that fuel) *)
+Theorem C20_terminates_after_faults : forall fs s cur fuel,
+  length fs + 3 <= fuel -> out_of (client fuel s cur fs) <> OutOfFuel.
+Proof. exact terminates_after_faults. Qed.
+Print Assumptions C20_terminates_after_faults.
+
+(* after any finite sequence of retryable stream failures (before / after the server processed the request) the
+   execution returns the job's result, the job having been created at most once *)
+Theorem C20_returns_after_retryable_faults : forall fs s, Forall benign fs ->
+  exists fuel,
+    out_of (run_client fuel s fs) = Returned /\
+    sjob (srv_of (run_client fuel s fs)) = true /\
+    screates (srv_of (run_client fuel s fs)) <= screates s + (if sjob s then 0 else 1).
+Proof. exact returns_after_retryable_faults. Qed.
+Print Assumptions C20_returns_after_retryable_faults.
+
+(* non-retryable stream exceptions and non-retryable error codes surface to the caller *)
+Theorem C20_nonretryable_surfaces : forall f s cur fs,
+  (forall x, retryable x = false ->
+     out_of (client (S f) s cur (BreakBefore x :: fs)) = RaisedExn x /\
+     out_of (client (S f) s cur (BreakAfter x :: fs)) = RaisedExn x) /\
+  (forall c, retry c cur = None -> out_of (client (S f) s cur (Reject c :: fs)) = RaisedStream c) /\
+  (forall s' c, serve s cur = (s', PErr c) -> retry c cur = None ->
+     out_of (client (S f) s cur (NoFault :: fs)) = RaisedStream c).
+Proof. exact nonretryable_surfaces. Qed.
+Print Assumptions C20_nonretryable_surfaces.
+
+Theorem C20_other_codes_raise : forall c cur,
+  c <> PROGRAM_ALREADY_EXISTS -> c <> JOB_ALREADY_EXISTS -> c <> PROGRAM_DOES_NOT_EXIST -> c <> JOB_DOES_NOT_EXIST ->
+  retry c cur = None.
+Proof. exact other_codes_raise. Qed.
+Print Assumptions C20_other_codes_raise.
+
+(* ---- StreamManager: the whole manager along EVERY event sequence ---- *)
+
+(* message ids are 0,1,2,... in sending order: never reused, also not across stream restarts *)
+Theorem C20_ids_fresh : forall pp pj fl evs,
+  let m := mrun pp pj fl evs in map rid (obs_reqs m) = seq 0 (next_id m).
+Proof. exact ids_fresh. Qed.
+Print Assumptions C20_ids_fresh.
+
+(* a submit future that completes with a result got the result of its own job, whatever the interleaving *)
+Theorem C20_demux_routes : forall pp pj fl evs c e r,
+  In (c, e, OReturned r) (obs_dones (mrun pp pj fl evs)) -> job_of r = e.
+Proof. exact result_routed_to_submitter. Qed.
+Print Assumptions C20_demux_routes.
+
+Theorem C20_job_created_at_most_once_m : forall pp pj fl evs,
+  let m := mrun pp pj fl evs in
+  NoDup (creates m) /\
+  (forall c e r, In (c, e, OReturned r) (obs_dones m) -> In e pj \/ count_occ PeanoNat.Nat.eq_dec (creates m) e = 1).
+Proof. exact job_created_at_most_once_m. Qed.
+Print Assumptions C20_job_created_at_most_once_m.
+
+(* every submit future completes at most once; cancel_quantum_job is sent exactly once for exactly the futures that end
+   cancelled *)
+Theorem C20_cancel_once : forall pp pj fl evs,
+  let m := mrun pp pj fl evs in
+  NoDup (map dexec (obs_dones m)) /\ obs_cancels m = map fst (filter is_cancelled (obs_dones m)).
+Proof. exact completes_once_and_cancel_once. Qed.
+Print Assumptions C20_cancel_once.
+
+(* non-vacuity *)
+Example C20_stream_example_benign :
+  Forall benign [BreakBefore XServiceUnavailable; NoFault; BreakAfter XUnknown] /\
+  run_client 8 (mkserver false false 0) [BreakBefore XServiceUnavailable; NoFault; BreakAfter XUnknown]
+  = (mkserver true true 1, Returned, [CreateProgJob; GetResult; CreateJob; GetResult; CreateJob; CreateProgJob]).
+Proof. split; [repeat apply Forall_cons; try apply Forall_nil; simpl; auto|vm_compute; reflexivity]. Qed.
+Example C20_stream_example_raises :
+  out_of (run_client 8 (mkserver false false 0) [BreakAfter XNotFound]) = RaisedExn XNotFound /\
+  out_of (run_client 8 (mkserver false false 0) [Reject INTERNAL]) = RaisedStream INTERNAL.
+Proof. split; vm_compute; reflexivity. Qed.
+Example C20_stream_example_manager :
+  let m := mrun [] [] [] [Submit 0; Submit 0; Process 1; Process 0; Break XServiceUnavailable; Process 1; Respond 0; Cancel 0] in
+  obs_dones m = [(7, 1, OReturned (RResult 1)); (8, 0, OCancelled)] /\ obs_cancels m = [(8, 0)] /\ creates m = [1].
+Proof. vm_compute. repeat split; reflexivity. Qed.
